@@ -395,11 +395,15 @@ pub fn push_ops_case(sink: &mut Sink, s: &mut Stream, kind: &str, t0: &Spec, ops
     let mut oracle = vec![];
     let r = catch(|| run_script(t0, ops, &ctx, &probes, &mut oracle));
     let human = json!({"kind": kind, "initial": j_tm(t0), "ops": ops.iter().map(j_op).collect::<Vec<_>>()});
-    let inp = format!("({}, [{}], {})", coq_tm(t0), ops.iter().map(coq_op).collect::<Vec<_>>().join("; "), coq_u64s(&probes));
+    // the model is asked about a thinned probe list (the final map is compared in full anyway)
+    let step = probes.len() / 24 + 1;
+    let cprobes: Vec<u64> = probes.iter().copied().step_by(step).collect();
+    let inp = format!("({}, [{}], {})", coq_tm(t0), ops.iter().map(coq_op).collect::<Vec<_>>().join("; "), coq_u64s(&cprobes));
     sink.nontrivial(&inp);
     sink.count(&format!("ops:{kind}"));
     match r {
         Ok(Ok((spec, rets, len, empty, ids, cont))) => {
+            let cont: Vec<bool> = cont.iter().copied().step_by(step).collect();
             if oracle.is_empty() {
                 sink.oracle_ok();
             } else {
@@ -486,7 +490,7 @@ fn rand_bound_pair(rng: &mut Rng, pool: &Pool) -> (Bound<u64>, Bound<u64>) {
         0 => 0,
         1 => 1,
         2 => rng.below(40),
-        3 => 0x1_0000 - 3 + rng.below(6),
+        3 => rng.range(300, 1200),
         _ => rng.below(300),
     };
     let lo = anchor;
@@ -544,7 +548,7 @@ pub fn run_ops(args: &Args, sink: &mut Sink, rng: &mut Rng, budget: &mut FullBud
     for (kind, t0, ops) in corpus_ops() {
         push_ops_case(sink, &mut s, kind, &t0, &ops, budget);
     }
-    for i in 0..args.vol(500, 8000) {
+    for i in 0..args.vol(300, 4000) {
         let pool = Pool::rand(rng, (1, 4), (2, 9));
         let t0 = if rng.chance(1, 3) { vec![] } else { pool.spec(rng, false) };
         let n = if i % 5 == 0 { 1 } else { rng.range(1, 7) as usize };
@@ -612,8 +616,11 @@ fn setops_case(sink: &mut Sink, s: &mut Stream, kind: &str, a: &Spec, b: &Spec, 
                     }
                 }
             }
+            // KNOWN_FINDINGS class: Full minus a bitmap holding all 2^32 offsets leaves an empty bitmap entry
+            let whole = a.iter().any(|(f, s)| matches!(s, Sel::Full) && b.iter().any(|(g, r)| g == f && matches!(r, Sel::Neg(v) if v.is_empty())));
             match bad {
                 None => sink.oracle_ok(),
+                Some(w) if whole && w.starts_with("a - b holds an empty bitmap") => sink.oracle_fail(Some("Known_C21_full_minus_whole_bitmap"), &format!("RowIdTreeMap set algebra: {w}"), human.clone()),
                 Some(w) => sink.oracle_fail(None, &format!("RowIdTreeMap set algebra: {w}"), human.clone()),
             }
             let out = format!("({}, {}, {}, {}, {})", coq_tm(&specs[0]), coq_tm(&specs[1]), coq_tm(&specs[2]), coq_tm(&specs[3]), coq_tm(&specs[4]));
@@ -625,8 +632,13 @@ fn setops_case(sink: &mut Sink, s: &mut Stream, kind: &str, a: &Spec, b: &Spec, 
 
 pub fn run_setops(args: &Args, sink: &mut Sink, rng: &mut Rng, budget: &mut FullBudget) {
     let mut s = Stream::new("setops", REQ, "chk_setops", "treemap * treemap", "treemap * treemap * treemap * treemap * treemap");
+    s.shard = 700;
     // corpus
     setops_case(sink, &mut s, "corpus:Full-Partial", &vec![(0, Sel::Full), (1, Sel::Pos(vec![1, 2]))], &vec![(0, Sel::Pos(vec![5])), (1, Sel::Full)], budget);
+    // known finding (thorough only: two full bitmaps): {7: Full} - {7: Partial(all 2^32 offsets)} keeps an empty entry
+    if args.thorough() {
+        setops_case(sink, &mut s, "corpus:Full - whole bitmap", &vec![(7, Sel::Full)], &vec![(7, Sel::Neg(vec![]))], budget);
+    }
     // exhaustive small universe: 2 fragments x 3 offsets, every absent/Full/Partial(subset) shape (empty Partial included)
     let all = all_specs(&[0, 1], &[0, 1, 2], true);
     let thorough = args.thorough();
@@ -634,14 +646,14 @@ pub fn run_setops(args: &Args, sink: &mut Sink, rng: &mut Rng, budget: &mut Full
     for a in &all {
         for b in &all {
             k += 1;
-            // quick tier: a deterministic half of the 10^4 pairs (seed-dependent which half), thorough: all
-            if !thorough && (k + args.seed) % 2 != 0 {
+            // quick tier: a deterministic eighth of the 10^4 pairs (seed-dependent which), thorough: all
+            if !thorough && (k + args.seed) % 8 != 0 {
                 continue;
             }
             setops_case(sink, &mut s, "exhaustive-2x3", a, b, budget);
         }
     }
-    for _ in 0..args.vol(300, 5000) {
+    for _ in 0..args.vol(200, 3000) {
         let pool = Pool::rand(rng, (1, 5), (2, 12));
         let a = pool.spec(rng, false);
         let b = pool.spec(rng, false);
